@@ -348,7 +348,7 @@ func generateStatementMatrix(stmts [][]*tree.Node, annotations interface{}, stmt
 									// IG Core --> print flat string representation of nested statement
 
 									// Check for existing private nodes ...
-									existing := entryMap[privateNodeValue.GetComponentName()]
+									existing := entryMap[privateNodeValue.GetComponentName()+tree.REF_SUFFIX]
 									if len(existing) > 0 {
 										// ... and append if necessary
 										existing += cellValueSeparator
@@ -357,8 +357,8 @@ func generateStatementMatrix(stmts [][]*tree.Node, annotations interface{}, stmt
 									// Perform application- and output-specific adjustments of private node
 									existing += performOutputSpecificAdjustments(v.StringFlat(), outputType)
 
-									// (Re)Assign to entry to be output
-									entryMap[privateNodeValue.GetComponentName()] = existing
+									// (Re)Assign to reference field (as for nested statements on non-private components)
+									entryMap[privateNodeValue.GetComponentName()+tree.REF_SUFFIX] = existing
 								}
 
 							}
